@@ -115,10 +115,13 @@ func (c *VirtualTable) BestIndex(input *sqlite.IndexInfoInput) (*sqlite.IndexInf
 		return nil, toSqlite(err)
 	}
 	used := make([]*sqlite.ConstraintUsage, len(indexIn))
+	argv := 0
 	for i := range indexOut.Used {
 		if indexOut.Used[i] {
+			// SQLite requires the used constraints to be numbered 1..n without gaps
+			argv++
 			used[i] = &sqlite.ConstraintUsage{
-				ArgvIndex: i + 1,
+				ArgvIndex: argv,
 				//Omit: true, // no known cases where this doesn't work, but...
 			}
 		}
